@@ -548,7 +548,7 @@ def to_model(data_file: typing.IO, _config = None, progress_callback=lambda _: N
         state = _State.NOTE
         continue
 
-      if line.startswith("STYLE"):
+      if line.rstrip(" \t") == "STYLE":
         state = _State.STYLE
         continue
 
